@@ -442,6 +442,40 @@ def d7_operators(ctx, mod):
         ctx.check(rule, 'correlators.py:Corr.Hankel.wrap', 'while i >= self.T' in t_ and 'i -= self.T' in t_, 'wrap(i) = i mod T', 'wrap differs')
 
 
+def d10_container(ctx, mod):
+    """the container itself: padding, temporal extent, item access and the definition of an undefined slice
+    (patterns with metavariables, matched modulo local definitions: sa/pat.py)"""
+    from .. import pat
+    rule = 'C14-D10'
+
+    def need(construct, func, patterns, ok_text):
+        missing = pat.has_all(func, patterns)
+        ctx.check(rule, construct, not missing, ok_text, 'no statement of the form %s' % missing, mod.loc(func))
+    f = mod.func('Corr.__init__')
+    need('correlators.py:Corr.__init__#padding', f,
+         ['self.content = [None] * padding[0] + self.content + [None] * padding[1]', 'self.T = len(self.content)'],
+         'padding[0] undefined slices in front, padding[1] behind, T = length of the padded content')
+    need('correlators.py:Corr.__init__#wrap', f,
+         ['self.content = [np.asarray([$I]) if $I is not None else None for $I in data_input]'],
+         'each defined entry is wrapped, None stays None, order kept')
+    need('correlators.py:Corr.__init__#matrix-of-corrs', f,
+         ['$A[$I, $J] = data_input[$I, $J][$T]'],
+         'matrix entry (i, j) at timeslice t comes from correlator (i, j) at t')
+    need('correlators.py:Corr.__init__#matrix-undefined', f,
+         ['any([$X.content[$T] is None for $X in data_input.flatten()])'],
+         'a timeslice undefined in any entry is undefined in the matrix correlator')
+    g = mod.func('Corr.__getitem__')
+    need('correlators.py:Corr.__getitem__', g,
+         ['self.content[$I] is None', 'len(self.content[$I]) == 1', 'return self.content[$I][0]', 'return self.content[$I]', 'return None'],
+         'item access: None / the single Obs / the matrix of the same timeslice')
+    c = mod.func('_check_for_none')
+    need('correlators.py:_check_for_none', c, ['return len(list(filter(None, np.asarray($E).flatten()))) < $C.N ** 2'],
+         'a slice is undefined unless all N^2 entries are present')
+    rw = mod.func('Corr.reweighted')
+    need('correlators.py:Corr.reweighted', rw, ['[$X for $X in self.content if $X is not None]', 'np.all($B == 1)', 'np.all($B == 0)'],
+         'flag of the correlator = common flag of all defined entries')
+
+
 def run(ctx):
     ctx.rule('C14-D1', 'null safety of timeslice values (arithmetic / index transformations)')
     ctx.rule('C14-D2', 'one output slot per timeslice on every path')
@@ -461,6 +495,8 @@ def run(ctx):
     ctx.guarded('C14-D8', 'correlators@hidden-state', hiddenstate.check, ctx, 'C14-D8', mod, [q for q, _ in mod.functions() if q.count('.') <= 1], 'the returned correlator')
     ctx.guarded('C14-D6', 'correlators.py@naming', d6_naming, ctx, mod)
     ctx.guarded('C14-D7', 'correlators.py@operators', d7_operators, ctx, mod)
+    ctx.rule('C14-D10', 'container: padding, extent, item access, definition of undefined')
+    ctx.guarded('C14-D10', 'correlators.py@container', d10_container, ctx, mod)
     from .. import unusedparams
     ctx.rule('C14-D9', 'every accepted option is read (no silently ignored parameter)')
     for mn_ in ('correlators',):
@@ -491,5 +527,7 @@ SELFTEST = [
     ('item-transposed', 'pyerrors/correlators.py', "newcontent = [None if (item is None) else item[i, j] for item in self.content]", "newcontent = [None if (item is None) else item[j, i] for item in self.content]", 'C14-D7'),
     ('projected-same-vector', 'pyerrors/correlators.py', "np.asarray([vector_l[t].T @ self.content[t] @ vector_r[t]])", "np.asarray([vector_l[t].T @ self.content[t] @ vector_l[t]])", 'C14-D7'),
     ('tsym-parity', 'pyerrors/correlators.py', "        T_partner = parity * partner.reverse()", "        T_partner = partner.reverse()", 'C14-D7'),
+    ('padding-swapped', 'pyerrors/correlators.py', "self.content = [None] * padding[0] + self.content + [None] * padding[1]", "self.content = [None] * padding[1] + self.content + [None] * padding[0]", 'C14-D10'),
+    ('check-for-none-N', 'pyerrors/correlators.py', "< corr.N ** 2", "< corr.N", 'C14-D10'),
     ('benign-guard-style', 'pyerrors/correlators.py', "            if _check_for_none(self, self.content[t]):\n                newcontent.append(None)\n            else:\n                newcontent.append(np.trace(self.content[t]))", "            if self.content[t] is None:\n                newcontent.append(None)\n                continue\n            newcontent.append(np.trace(self.content[t]))", 'BENIGN'),
 ]
